@@ -27,7 +27,7 @@ Lemma prefix_desired k reference l :
 Proof.
   assert (H : map desired_name (filter is_typed (map strip_arg_attrs l)) = map desired_name (filter is_typed l))
     by (apply desired_map; [apply strip_desired | apply strip_is_typed]).
-  destruct k; cbn [gen_prefix app filter is_typed self_receiver impl_receiver map desired_name]; rewrite H; reflexivity.
+  destruct k; cbn [gen_prefix app filter is_typed self_receiver impl_receiver impl_receiver_lt map desired_name]; rewrite H; reflexivity.
 Qed.
 
 (** one function: the converted signature has usable names that follow the rules *)
